@@ -820,6 +820,26 @@ var rReencodeStable = &Rule{
 							}
 						}
 					}
+					// the result of a method of the type itself (e.SafeDetails()): does what the method returns depend
+					// on the nested field (also through the chain walk that starts at it)?
+					if call, ok := v.(*ssa.Call); ok {
+						if m := sx.Callee(call); m != nil && m.Blocks != nil && m.Signature.Recv() != nil && sx.NamedOf(m.Signature.Recv().Type()) != nil && sx.NamedOf(m.Signature.Recv().Type()).Obj() == named.Obj() {
+							if st, ok := named.Underlying().(*types.Struct); ok {
+								for i := 0; i < st.NumFields(); i++ {
+									if !nested[st.Field(i).Name()] {
+										continue
+									}
+									for _, r := range sx.Returns(m) {
+										for _, res := range r.Results {
+											if dependsOnRecvField(m, res, st.Field(i), map[ssa.Value]bool{}, 0) {
+												return st.Field(i).Name()
+											}
+										}
+									}
+								}
+							}
+						}
+					}
 					return ""
 				}
 				// guardedByAbsence: the literals say that a field filled from the received strings is nil
@@ -888,4 +908,156 @@ func recvFieldPathOf(v ssa.Value) string {
 		return ""
 	}
 	return sx.FieldOf(fa).Name()
+}
+
+// ---------------------------------------------------------------------------
+// R-KEY-MARKER
+
+var rKeyMarker = &Rule{
+	Name: "R-KEY-MARKER",
+	Doc: "a type-key extension is the annotation itself: every ErrorKeyMarker() method of a module type returns a field of the receiver converted to string (or a constant) - not a value computed from it. The marker is what makes two errors of the same Go type different for Is() (two domains, two codes); " +
+		"a shortened or normalised marker makes distinct annotations collide: errors that differ in exactly that annotation start to match",
+	Run: func(c *core.Ctx) {
+		n := 0
+		for _, et := range GetCensus(c).ErrTypes {
+			fn := et.Methods["ErrorKeyMarker"]
+			if fn == nil || fn.Blocks == nil || !c.P.InModule(fn) {
+				continue
+			}
+			for _, ret := range sx.Returns(fn) {
+				if len(ret.Results) != 1 {
+					continue
+				}
+				n++
+				v := ret.Results[0]
+				for i := 0; i < 3; i++ {
+					switch x := v.(type) {
+					case *ssa.Convert:
+						v = x.X
+					case *ssa.ChangeType:
+						v = x.X
+					}
+				}
+				_, isConst := v.(*ssa.Const)
+				ok := isConst || len(recvFieldPath(fn, v)) >= 1
+				c.Check(ok, load.FnName(fn)+": returned marker", ret.Pos(), "a field of the receiver itself (converted), or a constant",
+					"the type-key extension is computed from the annotation ("+describeVal(v)+") instead of being the annotation: distinct annotations can yield the same marker, and errors that differ only in that annotation become equivalent for Is/IsAny and for the network mark")
+			}
+		}
+		c.Min("ErrorKeyMarker returns", n, 1)
+	},
+}
+
+// ---------------------------------------------------------------------------
+// R-DECODE-READONLY
+
+var rDecodeReadonly = &Rule{
+	Name: "R-DECODE-READONLY",
+	Doc: "decoding does not write into what it decodes: in errbase.DecodeError / decodeLeaf / decodeWrapper and their helpers no store goes through the received message (an address derived from the enc parameter, or from a pointer handed down from it). " +
+		"The opaque stand-ins keep the received details by copying them; a default written into the received message (a family name filled in, say) is then kept and re-emitted, so an unknowing process forwards something it never received, and the caller's message is changed under its feet",
+	Run: func(c *core.Ctx) {
+		p := c.P
+		n := 0
+		for _, name := range []string{"DecodeError", "decodeLeaf", "decodeWrapper"} {
+			fn := p.Func("errbase", name)
+			if fn == nil {
+				c.InternalErr("errbase."+name, "anchor not found")
+				continue
+			}
+			reg := regionOf(fn)
+			// values that address (parts of) the received message: pointer-typed or message-typed parameters of the
+			// anchor, and helper parameters that receive such a value
+			fromEnc := func(v ssa.Value) bool {
+				for d := 0; d < 12 && v != nil; d++ {
+					v = reg.resolve(v)
+					switch x := v.(type) {
+					case *ssa.Parameter:
+						if x.Parent() != fn {
+							return false
+						}
+						nm := sx.NamedOf(x.Type())
+						return nm != nil && nm.Obj().Pkg() != nil && strings.HasSuffix(nm.Obj().Pkg().Path(), "/errorspb")
+					case *ssa.FieldAddr:
+						v = x.X
+					case *ssa.IndexAddr:
+						v = x.X
+					case *ssa.UnOp:
+						v = x.X
+					case *ssa.Field:
+						v = x.X
+					case *ssa.Alloc:
+						// the spilled copy of a by-value parameter (DecodeError's enc): writes to it stay local
+						return false
+					default:
+						return false
+					}
+				}
+				return false
+			}
+			reg.each(func(in ssa.Instruction) {
+				st, ok := in.(*ssa.Store)
+				if !ok {
+					return
+				}
+				n++
+				if _, local := st.Addr.(*ssa.Alloc); local {
+					return
+				}
+				c.Check(!fromEnc(st.Addr), load.FnName(st.Parent())+": store through the received message", st.Pos(), "the received message is only read",
+					"a store goes through the received message ("+describeVal(st.Addr)+"): decoding rewrites its input, the opaque types keep and forward the rewritten details, and the caller's message changes")
+			})
+		}
+		c.Min("stores in the decode path", n, 5)
+	},
+}
+
+// ---------------------------------------------------------------------------
+// R-REGISTRY-NONNIL
+
+var rRegistryNonNil = &Rule{
+	Name: "R-REGISTRY-NONNIL",
+	Doc: "the codec registries never hold a nil function: every update of a package-level registry map of errbase (keyed by TypeKey, function-valued) stores a value that is known non-nil where it is stored (the registration functions delete the entry for a nil argument). " +
+		"decodeLeaf / decodeWrapper / encodeLeaf / encodeWrapper call whatever the lookup finds; a nil entry (left by 'unregistering' with nil) makes DecodeError / EncodeError panic for that type key instead of falling back to the opaque types",
+	Run: func(c *core.Ctx) {
+		p := c.P
+		n := 0
+		for _, fn := range p.HandFuncs() {
+			pk := load.FnPkg(fn)
+			if pk == nil || !strings.HasSuffix(pk.Path(), "/errbase") {
+				continue
+			}
+			sx.EachInstr(fn, func(in ssa.Instruction) {
+				mu, ok := in.(*ssa.MapUpdate)
+				if !ok {
+					return
+				}
+				if globalOfLoad(mu.Map) == nil {
+					return
+				}
+				mt, ok := types.Unalias(mu.Map.Type()).Underlying().(*types.Map)
+				if !ok || !sx.IsNamed(mt.Key(), load.ModPath+"/errbase", "TypeKey") {
+					return
+				}
+				if _, isFunc := types.Unalias(mt.Elem()).Underlying().(*types.Signature); !isFunc {
+					return
+				}
+				n++
+				nonNil := false
+				switch mu.Value.(type) {
+				case *ssa.Function, *ssa.MakeClosure:
+					nonNil = true
+				}
+				for _, l := range dominatingLits(mu.Block()) {
+					if bin, isBin := l.V.(*ssa.BinOp); isBin && ((bin.Op == token.NEQ && !l.Neg) || (bin.Op == token.EQL && l.Neg)) {
+						if (bin.X == mu.Value && sx.IsNil(bin.Y)) || (bin.Y == mu.Value && sx.IsNil(bin.X)) {
+							nonNil = true
+						}
+					}
+				}
+				c.Check(nonNil, load.FnName(fn)+": registry update of "+globalOfLoad(mu.Map).Name(), mu.Pos(), "the stored function is known non-nil",
+					"a possibly nil function is stored in the registry "+globalOfLoad(mu.Map).Name()+": after a registration with nil (the documented way to unregister) the next error with that type key makes DecodeError/EncodeError call a nil function")
+			})
+		}
+		c.Min("registry updates in errbase", n, 5)
+	},
 }
